@@ -144,4 +144,72 @@ func genC04(w *bufio.Writer, tier string, rng *rand.Rand) {
 			fmt.Fprintf(w, "meanci %s %s\n", fmtFs(x1), fmtF(c))
 		}
 	}
+	// small-integer data: coincidences (equal variances, equal means, zero differences) are the rule
+	smallInts := func(n int, scale, shift float64) []float64 {
+		xs := make([]float64, n)
+		for i := range xs {
+			xs[i] = float64(rng.Intn(5)-2)*scale + shift
+		}
+		return xs
+	}
+	for k := 0; k < pick(tier, 600, 12000); k++ {
+		n1, n2 := 2+rng.Intn(5), 2+rng.Intn(5)
+		scale := math.Ldexp(1, rng.Intn(5)-2)
+		if rng.Intn(4) == 0 {
+			scale = 3
+		}
+		x1 := smallInts(n1, scale, 0)
+		x2 := smallInts(n2, scale, float64(rng.Intn(3))*scale)
+		if rng.Intn(3) == 0 { // a rearrangement of x1's deviations on a sample of another size
+			x2 = append(append([]float64(nil), x1...), x1...)
+		}
+		alt := rng.Intn(3) - 1
+		fmt.Fprintf(w, "tt welch %s %s 0p-1074 %d\n", fmtFs(x1), fmtFs(x2), alt)
+		if rng.Intn(2) == 0 {
+			fmt.Fprintf(w, "tt pooled %s %s 0p-1074 %d\n", fmtFs(x1), fmtFs(x2), alt)
+		}
+		if rng.Intn(3) == 0 {
+			fmt.Fprintf(w, "tt one %s [] %s %d\n", fmtFs(x2), fmtF(float64(rng.Intn(3)-1)*scale/2), alt)
+		}
+	}
+	// designed samples: m copies each of c-d and c+d around one c have variance exactly d*d
+	// whatever m is, so the two variances are equal (or in the ratio 4, 1/4) as floats although
+	// the sizes differ
+	for k := 0; k < pick(tier, 150, 3000); k++ {
+		mk := func(m int, c, d float64) []float64 {
+			xs := []float64{c}
+			for i := 0; i < m; i++ {
+				xs = append(xs, c-d, c+d)
+			}
+			rng.Shuffle(len(xs), func(i, j int) { xs[i], xs[j] = xs[j], xs[i] })
+			return xs
+		}
+		d := math.Ldexp(float64(1+rng.Intn(3)), rng.Intn(5)-2)
+		x1 := mk(1+rng.Intn(4), float64(rng.Intn(7)-3), d)
+		x2 := mk(1+rng.Intn(4), float64(rng.Intn(7)-3), d*[]float64{1, 1, 1, 2, 0.5}[rng.Intn(5)])
+		alt := rng.Intn(3) - 1
+		fmt.Fprintf(w, "tt welch %s %s 0p-1074 %d\n", fmtFs(x1), fmtFs(x2), alt)
+		if rng.Intn(2) == 0 {
+			fmt.Fprintf(w, "tt pooled %s %s 0p-1074 %d\n", fmtFs(x1), fmtFs(x2), alt)
+		}
+	}
+	// histories: one confidence level, sample sizes that differ by multiples of small powers of
+	// two among them, in a process of its own
+	for h := 0; h < pick(tier, 25, 400); h++ {
+		c := []float64{0.95, 0.99, 0.9, 0.5, rng.Float64()}[rng.Intn(5)]
+		base := 2 + rng.Intn(12)
+		fmt.Fprintf(w, "{{\n")
+		for q := 0; q < 14; q++ {
+			nn := base + []int{0, 1, 8, 16, 32, 64, 33, 31}[rng.Intn(8)]
+			if rng.Intn(4) == 0 {
+				nn = 2 + rng.Intn(80)
+			}
+			xs := ttValues(rng, nn, float64(rng.Intn(3))*10, math.Ldexp(1, rng.Intn(5)-2))
+			fmt.Fprintf(w, "meanci %s %s\n", fmtFs(xs), fmtF(c))
+			if rng.Intn(3) == 0 {
+				fmt.Fprintf(w, "tt one %s [] 0p-1074 %d\n", fmtFs(xs), rng.Intn(3)-1)
+			}
+		}
+		fmt.Fprintf(w, "}}\n")
+	}
 }
